@@ -381,6 +381,31 @@ pub fn run(ctx: &Ctx) -> (Stats, Report) {
             }
         }
     }
+    // the day limit and its neighbours x every boundary / binary-boundary time of day (where a
+    // narrowed time part would look like zero)
+    {
+        let mut times = pools::time_edges();
+        times.extend(pools::binary_times_of_day());
+        times.extend(pools::mirrored_binary_times());
+        for &d in &[0u32, 1, 99_999_999, 100_000_000, 100_000_001] {
+            for &t in &times {
+                let (h, mi, se, us) = ((t / US_PER_HOUR) as u32, (t % US_PER_HOUR / US_PER_MIN) as u32, (t % US_PER_MIN / US_PER_SEC) as u32, (t % US_PER_SEC) as u32);
+                st.evaluations += 1;
+                k += 1;
+                match check_dt_grid(d, h, mi, se, us) {
+                    Ok(true) => st.class("dt-fields-accepted"),
+                    Ok(false) => {
+                        st.class("dt-fields-rejected");
+                        st.nontrivial_enum += 1;
+                    }
+                    Err(msg) => {
+                        st.fail(k, Case::new(P, "dt_grid", vec![d as i128, h as i128, mi as i128, se as i128, us as i128], vec![]), msg);
+                        break;
+                    }
+                }
+            }
+        }
+    }
     for d in [1i64, 2, 12, 1000] {
         for v in [ymax + d, -ymax - d] {
             st.evaluations += 1;
